@@ -65,11 +65,105 @@ def pace_oracle(case, impl):
     return None
 
 
+def _ids(tok, tag):
+    """'T:1,3' -> ['1','3'] (with multiplicity); anything malformed -> None"""
+    body = tok[len(tag):].replace("BAD", "")
+    return [x for x in body.split(",") if x]
+
+
+def cfg_oracle(case, impl):
+    """C15's own oracle on the implementation's observations of a configured loop, reference value computed from the
+    CONFIGURATION alone (G.shortest_configured): (a) no request while the scripted lock is not held, (b) no group entry
+    requested twice within the shortest configured interval, (c) the pace is that interval and not a longer one: with the
+    lock held, a group whose last evaluation is more than the shortest configured interval old is requested.
+    Returns a description of the first violation or None."""
+    c = G.parse_cfg(case)
+    exp = G.shortest_configured(c["mods"])
+    if exp is None or exp < 0:
+        return None
+    toks = impl.split()
+    if len(toks) < 2 or not toks[0].startswith("MI:"):
+        return None
+    outs = toks[2:]
+    le = dict(c["groups"])           # entry -> LastEval as far as the oracle can know it
+    last = {}                        # entry -> clock of its latest observed evaluation
+    gate = False
+    for k, ev in enumerate(c["events"]):
+        if k >= len(outs):
+            break
+        o = outs[k].lstrip("!")
+        kind = ev[0]
+        if kind in ("k", "t"):
+            now = ev[1]
+            if kind == "k":
+                if not o.startswith("K:") or outs[k].startswith("!"):
+                    return None      # the lock was not granted as scripted: outside this oracle
+                gate = True
+            elif not o.startswith("T:"):
+                return None
+            ids = _ids(o, o[:2])
+            if ids and not gate:
+                return "group(s) %s requested at clock %d while the lock is not held" % (",".join(ids), now)
+            seen = set()
+            for g in ids:
+                if g in seen:
+                    return "group %s requested more than once in the iteration(s) at clock %d (shortest configured interval %d s)" % (g, now, exp)
+                seen.add(g)
+                if g in last and now - last[g] <= exp * G.NS:
+                    return ("group %s evaluated at %d and again at %d: %d ns apart, shortest configured interval %d s"
+                            % (g, last[g], now, now - last[g], exp))
+            if gate:
+                for g, l in le.items():
+                    if now - l > exp * G.NS and g not in seen:
+                        return ("group %s (last evaluation %d) not requested at clock %d although more than the shortest configured "
+                                "interval (%d s) has passed: the loop is not paced by the shortest configured interval" % (g, l, now, exp))
+            for g in seen:
+                last[g] = now
+                le[g] = now
+        elif kind == "x":
+            if gate and not o.startswith("X"):
+                return None
+            gate = False
+        elif kind == "e":
+            pass
+        elif kind == "r":
+            if not o.startswith("R:"):
+                return None
+            body = o[2:].split("+")[0].replace("RANGEBAD", "")
+            ents = dict(x.split("=") for x in body.split(",") if "=" in x)
+            le = {g: int(v) for g, v in ents.items()}
+            listed = set(g for g, _ in ev[2])
+            for g in list(last):
+                if g not in listed:
+                    del last[g]
+            if "+" in o:
+                ids = _ids("+" + o.split("+", 1)[1], "+")
+                for g in ids:
+                    if g in last and ev[1] - last[g] <= exp * G.NS:
+                        return ("group %s evaluated at %d and again at %d (during the list refresh), shortest configured interval %d s"
+                                % (g, last[g], ev[1], exp))
+                    last[g] = ev[1]
+                    le[g] = ev[1]
+    return None
+
+
+def cfg_mi(impl):
+    t = impl.split()
+    if t and t[0].startswith("MI:"):
+        try:
+            return int(t[0][3:])
+        except ValueError:
+            return None
+    return None
+
+
 def run(chk, failed):
     rng = chk.rng
     n_loop = 28 if not chk.thorough else 400
     n_f8 = 3 if not chk.thorough else 40
     n_pace = 45 if not chk.thorough else 1500
+    n_cfg = 30 if not chk.thorough else 600
+    n_cfg_only = 90 if not chk.thorough else 4000
     cases, tags = [], []
     for ln in C.read_corpus(chk.pid):
         cases.append(ln); tags.append(["corpus"])
@@ -84,11 +178,23 @@ def run(chk, failed):
     for i in range(n_pace):
         ln, tg = G.gen_pace(rng, i)
         cases.append(ln); tags.append(tg)
+    for ln in G.FIXED_CFG:
+        cases.append(ln); tags.append(["fixed"] + G.cfg_tags(G.parse_cfg(ln)["mods"]))
+    for i in range(n_cfg):
+        ln, tg = G.gen_cfg(rng, i)
+        cases.append(ln); tags.append(tg)
+    for i in range(n_cfg_only):
+        ln, tg = G.gen_cfg(rng, i, scenario=False)
+        cases.append(ln); tags.append(tg)
     chk.rule = ("loop: scripted fault sequences against a started Coordinator (1-5 expiry/reconnect cycles, lock errors, lost "
                 "broadcasts, connection flaps, back-to-back relock); non-trivial = at least one expiry delivered while evaluating "
                 "and at least one later re-acquisition or a non-evaluating phase observed; pace: sendEvaluatorRequests / "
                 "processConsumerList under the virtual clock with the clock placed -1/0/+1 ns around LastEval+minInterval; "
-                "non-trivial = at least one tick with a request and one tick/group without; distinct by the case line")
+                "non-trivial = at least one tick with a request and one tick/group without; cfg: the real Configure on a generated "
+                "viper configuration (0-4 modules null/http/email, interval / send-interval / threshold present or absent, via "
+                "viper.Set or a TOML document), then the loop it configured, Started, under the scripted lock and the virtual clock "
+                "(minInterval, doEvaluations and the group list all produced by the real code), ticks at shortest+0/+1 ns; "
+                "non-trivial = at least two modules, or a scenario with a request and a tick without; distinct by the case line")
     impl, model, mism = chk.differential("evalloop", "evalloop", "TestVerifProbeEvalloop", cases, name="evalloop",
                                          project=seq_of, timeout=1500)
     for c, tg, a, m in zip(cases, tags, impl, model):
@@ -101,6 +207,11 @@ def run(chk, failed):
             if any(o.endswith("1") for o in obs) and any(o.endswith("0") for o in obs) and "x" in c.replace("okx", ""):
                 chk.nontrivial.add(C.case_hash(c))
             chk.count("loop:steps", len(obs))
+        elif kind == "cfg":
+            outs = a.split()[2:]
+            if (len(G.parse_cfg(c)["mods"]) >= 2 or
+                    (any(len(o) > 2 and o[0] in "TK" for o in outs) and any(o == "T:" for o in outs))):
+                chk.nontrivial.add(C.case_hash(c))
         else:
             outs = [o for o in a.split() if o.startswith("T:")]
             if any(len(o) > 2 for o in outs) and (any(len(o) == 2 for o in outs) or len(outs) > 1):
@@ -125,8 +236,11 @@ def run(chk, failed):
             retry.append((i, c, a, m))
     # A fault sequence is timing-observed (settle 260 ms, window 60 ms); a disagreement is re-run once, alone and with
     # three times the grace, before it counts.
-    loops = [(i, c, a, m) for (i, c, a, m) in retry if c.startswith("loop ")]
-    confirmed = [(i, c, a, m) for (i, c, a, m) in retry if not c.startswith("loop ")]
+    badmi = [(i, c, a, m) for (i, c, a, m) in retry if c.startswith("loop ") and a.startswith("BADMI:")]
+    loops = [(i, c, a, m) for (i, c, a, m) in retry if c.startswith("loop ") and not a.startswith("BADMI:")]
+    cfgs = [(i, c, a, m) for (i, c, a, m) in retry if c.startswith("cfg ")]
+    confirmed = [(i, c, a, m) for (i, c, a, m) in retry if c.startswith("pace ")]
+    report_cfg(chk, cfgs, badmi)
     if loops:
         chk.notes.append("%d fault sequence(s) disagreed on the first run and were re-run with VERIF_GRACE_MULT=3" % len(loops))
         impl2, model2, mism2 = chk.differential("evalloop", "evalloop", "TestVerifProbeEvalloop", [c for _, c, _, _ in loops],
@@ -136,7 +250,7 @@ def run(chk, failed):
             if classify_expiry_before_wait(c, a, m) and chk.known_finding(KEY_F8, c):
                 continue
             confirmed.append((loops[j][0], c, a, m))
-    for (i, c, a, m) in confirmed[:5]:
+    for (i, c, a, m) in confirmed[:3]:
         if c.startswith("loop "):
             bad = unsafe_direction(a, seq_of(m))
             chk.violation("loop_%d" % i, {"kind": "schedule", "probe": "notifier/TestVerifProbeEvalloop", "case": c,
@@ -159,9 +273,77 @@ def run(chk, failed):
         "from a Broadcast just after it returns",
         "phases are observed through requests arriving on App.EvaluatorChannel (settle 260 ms, window 60 ms; loop polls 1 ms / sleeps 100 ms); "
         "the unsynchronised read of doEvaluations and the hand-over between two request goroutines are below the model's step granularity",
-        "0 <= minInterval*10^9 < 2^63 (no time.Duration overflow); processConsumerList's random draw is checked to be in "
+        "module intervals are int64 values with 0 <= interval*10^9 < 2^63 (no time.Duration overflow; larger and negative "
+        "intervals are compared on Configure's result only); viper's key lookup / cast (explicit value, else registered default) is "
+        "EvalLoop.viper_get; processConsumerList's random draw is checked to be in "
         "[0, minInterval*1000) ms and then pinned to the scripted value; lock.Unlock() failing (panic) is modelled but not replayed",
     ]
+
+
+def report_cfg(chk, cfgs, badmi):
+    """Disagreements on configured loops.  The case itself first (the property's oracle on the implementation's output);
+    otherwise the three-event scenario that separates every wrong pace from the configured one, run on the same
+    configuration; otherwise the correspondence that no longer holds, without a failing input."""
+    if not cfgs and not badmi:
+        return
+    reported = 0
+    pending = []
+    for (i, c, a, m) in cfgs:
+        why = cfg_oracle(c, a)
+        if why:
+            if reported < 3:
+                chk.violation("cfg_%d" % i, cfg_replay(c, a, m, why))
+            reported += 1
+        else:
+            pending.append((i, c, a, m))
+    if badmi:
+        # the loop scenarios configure one null module with interval 0
+        i, c, a, m = badmi[0]
+        pending.append((i, G.LOOP_CFG, "MI:%s (as configured for the loop scenarios)" % a[6:], "MI:0"))
+        chk.notes.append("%d loop scenario(s) not run: Configure did not produce minInterval 0 from interval = 0" % len(badmi))
+    if reported >= 3 or not pending:
+        return
+    seen, focus = set(), []
+    for (i, c, a, m) in pending:
+        fc = G.focus_case(c)
+        key = fc or c
+        if key in seen:
+            continue
+        seen.add(key)
+        focus.append((i, c, a, m, fc))
+    focus = focus[:6]
+    runnable = [fc for (_, _, _, _, fc) in focus if fc]
+    res = {}
+    if runnable:
+        impl2, model2, _ = chk.differential("evalloop", "evalloop", "TestVerifProbeEvalloop", runnable, name="evalloop_focus",
+                                            project=seq_of, timeout=600)
+        res = {fc: (a2, m2) for fc, a2, m2 in zip(runnable, impl2, model2)}
+    for (i, c, a, m, fc) in focus:
+        if reported >= 3:
+            break
+        why = cfg_oracle(fc, res[fc][0]) if fc in res else None
+        if why:
+            r = cfg_replay(fc, res[fc][0], res[fc][1], why)
+            r["found_from"] = {"case": c, "impl_output": a, "model_output": m}
+            chk.violation("cfg_%d" % i, r)
+        else:
+            exp = G.shortest_configured(G.parse_cfg(c)["mods"])
+            chk.violation("cfg_%d" % i, cfg_replay(c, a, m, "differs from EvalLoop.configure_min / step_s (shortest configured interval: %s); "
+                                                             "the property's oracle is not violated on this case nor on the focused scenario"
+                                                   % ("none, no module" if exp is None else "%d s" % exp)), found_input=False)
+        reported += 1
+
+
+def cfg_replay(c, a, m, why):
+    p = G.parse_cfg(c)
+    return {"kind": "configuration+schedule", "probe": "notifier/TestVerifProbeEvalloop", "case": c,
+            "configuration": {"source": p["src"],
+                              "modules": {"m%s" % x["id"]: {"class-name": x["class"], "interval": x["iv"], "send-interval": x["sv"],
+                                                            "threshold": x["th"]} for x in p["mods"]}},
+            "shortest_configured_interval_s": G.shortest_configured(p["mods"]),
+            "implementation_minInterval": cfg_mi(a),
+            "impl_output": a, "model_output": m, "broken": "corr:notifier.Coordinator.Configure+sendEvaluatorRequests (EvalLoop.configure_min, step_s)",
+            "oracle_verdict": why, "cmd": "bin/check C15 --replay <this file>"}
 
 
 def replay(path):
@@ -176,4 +358,10 @@ def replay(path):
     print("model:", model[0])
     if mism and classify_expiry_before_wait(case, impl[0], model[0]):
         print("classified:", KEY_F8)
+    if case.startswith("cfg "):
+        print("shortest configured interval:", G.shortest_configured(G.parse_cfg(case)["mods"]))
+        print("oracle:", cfg_oracle(case, impl[0]))
+        return 1 if (mism or cfg_oracle(case, impl[0])) else 0
+    if case.startswith("pace "):
+        print("oracle:", pace_oracle(case, impl[0]))
     return 1 if mism else 0
